@@ -31,13 +31,52 @@ package main
 //# tar -i: the index that is written carries the digest flag of the digest the chunk IDs were made with
 //# (ChunkStream's postcondition); adding the catar feature flags must not change that bit
 //@ func runTar
-//@   prop C02 C05
+//@   prop C02 C05 C13
 //@   safety none
 //@   requires $wn >= 0
 //@   lit 1: requires $wn >= 0
 //# the chunker handed to ChunkStream was just made by NewChunker over a pipe nobody has read from yet
 //@   assume@before:ChunkStream wfChunker(&c) && len(desync.hashTable) == 256 && (forall b int :: 0 <= b && b < 256 ==> desync.hashTable[b] == tbl(b))
 //@   oncall storeCaibxFile: requires ($arg0.Index.FeatureFlags & desync.CaFormatSHA512256 != 0 <==> algOf(desync.Digest) == crypto.SHA512_256)
+//# C13: the catar written to a file is the whole file: the output is created or truncated (os.Create), never
+//# opened over what an earlier run left there
+//@   oncall OpenFile: requires @C13 $arg1 & os.O_TRUNC != 0 && $arg1 & os.O_APPEND == 0
+
+//# make: the index that is written is the one IndexFromFile produced for the input - the same parameters and the
+//# same chunk list (the list object itself: nothing between chunking and writing builds another one), and the
+//# chunks are stored from that very list. What the callees do to the list's elements is not tracked here; a new
+//# helper that touches the list leaves this unit undecided and the replay (make -s on an input with repeated
+//# chunks, then the written index is compared with the input) decides.
+//@ ghost var $mk []desync.IndexChunk
+//@ ghost var $mkMin int
+//@ ghost var $mkAvg int
+//@ ghost var $mkMax int
+//@ ghost var $mkFlags int
+//@ func runMake
+//@   prop C06
+//@   safety none
+//# (the concurrency option is positive: a user input that is not validated by the command, assumed)
+//@   assume@entry opt.n >= 1
+//@   ghost@after:IndexFromFile $mk = $r0.Chunks
+//@   ghost@after:IndexFromFile $mkMin = $r0.Index.ChunkSizeMin
+//@   ghost@after:IndexFromFile $mkAvg = $r0.Index.ChunkSizeAvg
+//@   ghost@after:IndexFromFile $mkMax = $r0.Index.ChunkSizeMax
+//@   ghost@after:IndexFromFile $mkFlags = $r0.Index.FeatureFlags
+//@   oncall ChopFile: requires $arg2 == $mk
+//@   oncall storeCaibxFile: requires $arg0.Chunks == $mk && $arg0.Index.ChunkSizeMin == $mkMin && $arg0.Index.ChunkSizeAvg == $mkAvg && $arg0.Index.ChunkSizeMax == $mkMax && $arg0.Index.FeatureFlags == $mkFlags
+
+//# verify: the store that is verified is the one the user named, opened with the options the configuration
+//# holds for exactly that location (uncompressed stores keep other file names: with the wrong options the walk
+//# would look at none of the store's chunks and report nothing), and the repair / concurrency options are the
+//# command's
+//@ ghost var $vopt desync.StoreOptions
+//@ func runVerify
+//@   prop C16 C20
+//@   safety none
+//@   ghost@after:GetStoreOptionsFor $vopt = $r0
+//@   oncall GetStoreOptionsFor: requires $arg0 == opt.store
+//@   oncall NewLocalStore: requires $arg0 == opt.store && $arg1 == $vopt
+//@   oncall Verify: requires $arg1 == opt.n && $arg2 == opt.repair
 
 // ---------------------------------------------------------------------------- C15
 
